@@ -20,10 +20,10 @@ RULE = ('runtime contracts (post-conditions recorded, never raising) on TseitinT
 ASSUMPTIONS = ['<= 7 atoms per base+query (all assignments enumerated)',
                'hard clauses are judged jointly by DPLL (shared auxiliary variables included)']
 TRUSTED = ['the 40-line DPLL vf/sat.py (self-tested against brute force)']
-FLOOR = {'quick': 1500, 'thorough': 15000}
+FLOOR = {'quick': 700, 'thorough': 7000}
 BUDGET = {'quick': 100, 'thorough': 1500}
 N = {'quick': 460, 'thorough': 6000}
-REQUIRED = {'quick': {'cnf_checked': 5000, 'mcs_checked': 3000, 'mcs_z3_checked': 500, 'mcs_nontrivial': 300,
+REQUIRED = {'quick': {'cnf_checked': 3000, 'mcs_checked': 1500, 'mcs_z3_checked': 250, 'mcs_nontrivial': 150,
                       'exhaustive_conditionals': 1600},
             'thorough': {'cnf_checked': 50000, 'mcs_checked': 30000, 'mcs_z3_checked': 5000, 'mcs_nontrivial': 3000,
                          'exhaustive_conditionals': 1600}}
